@@ -396,7 +396,9 @@ func minimise(c *call, kind string) *call {
 	}
 	result := c
 	for _, d := range candidates(c) {
-		if kindOf(d) == kind {
+		// a failing call that does NOT contain the trigger of a listed finding is never shrunk into one that does:
+		// the two failures have different causes even when their kind reads the same
+		if kindOf(d) == kind && listedTrigger(d) == listedTrigger(c) {
 			result = minimise(d, kind)
 			break
 		}
@@ -406,6 +408,34 @@ func minimise(c *call, kind string) *call {
 	}
 	minMemo[key] = result.spec()
 	return result
+}
+
+// listedTrigger: does the call contain the trigger of one of the recorded C14 findings (known-findings.jsonl)?
+// reduce: an empty effective range without :initial-value (D15); fill: :end = length, :start = length, :end nil, an empty list or nil (D10); mismatch: :from-end (D8).
+func listedTrigger(c *call) bool {
+	switch c.fn {
+	case "reduce":
+		if c.init || len(c.seqs) == 0 {
+			return false
+		}
+		lo, hi := 0, len(c.seqs[0])
+		if c.hasStart {
+			lo = c.start
+		}
+		if c.hasEnd && !c.endNil {
+			hi = c.end
+		}
+		return hi <= lo
+	case "fill":
+		if len(c.seqs) == 0 || len(c.seqs[0]) == 0 {
+			return true
+		}
+		n := len(c.seqs[0])
+		return (c.hasEnd && (c.endNil || c.end == n)) || (c.hasStart && c.start == n)
+	case "mismatch":
+		return c.fromEnd
+	}
+	return false
 }
 
 const memoCap = 1000000
